@@ -115,7 +115,7 @@ def name_pools():
         "limit": {"i0": "g_limit_fanin_0", "i1": "g_limit_fanout_0", "h": "g_limit_fanin_1"},
         "miter": {"i0": "sat", "i1": "dif_g", "h": "c0_g", "i2": "c1_g"},
         "unroll": {"i0": "unrolled_0_a", "i1": "aux_in_g", "h": "c0_a"},
-        "escaped": {"i0": "\\a[0]", "i1": "\\b.c", "g": "\\out[1]"},
+        "escaped": {"i0": "\\a[0]", "i1": "\\b+c", "g": "\\out[1]"},
         "verilog": {"i0": "not_a", "i1": "and_a_b", "i2": "a", "h": "g_0"},
     }
 
